@@ -22,6 +22,37 @@ fn samples_tok(g: &mut Gen, net: &NetSpec, out: &Sh, n: usize) -> String {
     v.join(" ")
 }
 
+
+/// a small network with dropout trained with validation data whose scripted loss rises at once: training stops early
+/// (and, in a second request, runs to the end); afterwards the network must be back in inference mode
+pub fn early_stopped_dropout_learn(g: &mut Gen, label: &str) {
+    let cfgd = ArchCfg { wscale: 0.5, acts: vec!["tanh", "sigmoid"], dropout: false, ..ArchCfg::small() };
+    for spatial in [false, true] {
+        let mut builds = Vec::new();
+        let (input, first_out) = if spatial {
+            let mut c = InnerSpec::Conv { filters: 2, act: "sigmoid".into(), k: (2, 2), s: (1, 1), p: (0, 0), d: (1, 1), dropout: Some(0.5),
+                ks: (0..2).map(|_| weights(g, &Shape::Triple(1, 2, 2), 0.5)).collect() };
+            if let InnerSpec::Conv { dropout, .. } = &mut c { *dropout = Some(0.5); }
+            builds.push(Build::Layer(c));
+            (Shape::Triple(1, 4, 3), 2 * 3 * 2)
+        } else {
+            let mut d = dense_spec(g, &cfgd, 3, 6, "sigmoid", true);
+            if let InnerSpec::Dense { dropout, .. } = &mut d { *dropout = Some(0.5); }
+            builds.push(Build::Layer(d));
+            (Shape::Single(3), 6)
+        };
+        builds.push(Build::Layer(dense_spec(g, &cfgd, first_out, 2, "linear", true)));
+        let mut net = NetSpec { input, builds, skipacc: "add".into(), loopacc: "mean".into(), opt: None, obj: "mse".into(), clamp: None };
+        net.opt = Some(OptSpec::Sgd(0.05, None));
+        let s = samples_tok(g, &net, &Sh::Flat(2), 2);
+        let v = samples_tok(g, &net, &Sh::Flat(2), 1);
+        for script in [vec![1.0f32, 2.0, 3.0, 4.0, 5.0, 6.0], vec![6.0, 5.0, 4.0, 3.0, 2.0, 1.0]] {
+            g.push(format!("net {} learn 2 {} 1 1 {} 2 1 6 {} {}", net.token(), s, v, script.len(), q1(&script)), Tol::Loose,
+                &format!("{}/{}", label, if spatial { "spatial" } else { "flat" }), true);
+        }
+    }
+}
+
 /* ---------------- C08 ---------------- */
 
 pub fn c08(g: &mut Gen) {
@@ -113,6 +144,22 @@ pub fn c08(g: &mut Gen) {
     g.push(format!("net {} shapes", net.token()), Tol::Exact, "first-layer-kind", true);
     let net = NetSpec { input: Shape::Single(4), builds: vec![Build::Layer(InnerSpec::Maxpool { k: (1, 1), s: (1, 1) })], skipacc: "add".into(), loopacc: "mean".into(), opt: None, obj: "mse".into(), clamp: None };
     g.push(format!("net {} shapes", net.token()), Tol::Exact, "first-layer-kind", true);
+    // a flattened spatial output that re-enters its own spatial layer through a loop connection must be read as the
+    // announced c x h x w on every iteration (with and without input skips, 1..3 iterations, square and rectangular)
+    for (c, h, w) in [(1usize, 4usize, 4usize), (2, 3, 5)] {
+        for iterations in 1..=3usize {
+            for inskips in [false, true] {
+                let conv = InnerSpec::Conv { filters: c, act: "tanh".into(), k: (3, 3), s: (1, 1), p: (1, 1), d: (1, 1), dropout: None,
+                    ks: (0..c).map(|_| weights(g, &Shape::Triple(c, 3, 3), 0.3)).collect() };
+                let mut net = NetSpec { input: Shape::Triple(c, h, w), builds: vec![Build::Layer(conv), Build::Layer(dense_spec(g, &cfg, c * h * w, 2, "tanh", true))],
+                    skipacc: "add".into(), loopacc: "mean".into(), opt: None, obj: "mse".into(), clamp: None };
+                net.builds.push(Build::Loopback { outof: 0, into: 0, iterations, scale: "inv".into(), inskips });
+                let x = input_for(g, &net.input);
+                g.push(format!("net {} predict {}", net.token(), qt(&x)), Tol::Tight, &format!("looped-flattened/{}x{}x{}/k{}", c, h, w, iterations), true);
+                g.push(format!("net {} forward {}", net.token(), qt(&x)), Tol::Tight, &format!("looped-flattened/{}x{}x{}/k{}", c, h, w, iterations), true);
+            }
+        }
+    }
 }
 
 /* ---------------- C12 ---------------- */
@@ -470,6 +517,18 @@ pub fn c04(g: &mut Gen) {
             let net = NetSpec { input: Shape::Single(3), builds, skipacc: "add".into(), loopacc: "mean".into(), opt: Some(OptSpec::Sgd(0.05, None)), obj: "mse".into(), clamp: None };
             let s = samples_tok(g, &net, &Sh::Flat(2), n);
             g.push(format!("net {} learn {} {} 0 {} 2 0", net.token(), n, s, b), Tol::Loose, &format!("bias-pattern-{:03b}/N{}/B{}", pat, n, b), true);
+        }
+    }
+    // training twice in a row: the second run continues from the parameters and the optimizer state the first left
+    // behind (every stateful optimizer; perceptrons and networks with spatial layers)
+    for (oi, o) in opts.iter().enumerate() {
+        for (n, b, e) in [(5usize, 2usize, 2usize), (4, 3, 1)] {
+            let mlp = (oi + n) % 2 == 0;
+            let c = if mlp { ArchCfg { conv: false, deconv: false, pool: false, flat_input: Some(true), ..cfg.clone() } } else { cfg.clone() };
+            let (mut net, out) = random_net(g, &c);
+            net.opt = Some(o.clone());
+            let s = samples_tok(g, &net, &out, n);
+            g.push(format!("net {} relearn {} {} 0 {} {} 0", net.token(), n, s, b, e), Tol::Loose, &format!("second-run/{}/N{}/B{}", o.kind(), n, b), true);
         }
     }
     // batch size 0 is refused
@@ -938,6 +997,27 @@ pub fn c01(g: &mut Gen) {
         onehot[n - 1] = 1.0;
         g.push(format!("net {} backward {} {}", net.token(), qt(&x), qt(&Tensor::single(onehot))), Tol::Tight, &format!("softmax-ce/{}/one-hot", n), true);
     }
+    // saturated activations whose tiny derivative is amplified by a huge following weight (the derivative at -50, -20,
+    // +20 is an ordinary single-precision number; it must not be flushed to zero, overflow or turn into NaN)
+    // (sigmoid on the negative side only, where the output stays O(1) and the objective is well conditioned: with tanh the
+    // amplified output is huge and central differences of the objective lose the derivative to cancellation; y(1 - y) at large positive z is a cancellation whose *absolute* error is one
+    // rounding of an O(1) quantity — amplifying it says nothing about the derivative being wrong)
+    for (act, zs) in [("sigmoid", vec![-50.0f32, -20.0, -100.0, -80.0])] {
+        for z in zs {
+            let amp = if act == "sigmoid" { (-(z.abs().min(60.0))).exp().recip().min(1e21) * 0.1 } else { (2.0 * z.abs().min(40.0)).exp().min(1e21) * 0.02 };
+            let w1 = Tensor::double(vec![vec![z, 0.0], vec![0.3, -0.2]]);
+            let l1 = InnerSpec::Dense { out: 2, act: act.to_string(), bias: false, dropout: None, w: w1, b: None };
+            let w2 = Tensor::double(vec![vec![amp, 0.5]]);
+            let l2 = InnerSpec::Dense { out: 1, act: "linear".into(), bias: true, dropout: None, w: w2, b: Some(Tensor::single(vec![0.1])) };
+            let net = NetSpec { input: Shape::Single(2), builds: vec![Build::Layer(l1), Build::Layer(l2)], skipacc: "add".into(), loopacc: "mean".into(), opt: None, obj: "mse".into(), clamp: None };
+            let x = Tensor::single(vec![1.0, 0.5]);
+            let t = Tensor::single(vec![0.25]);
+            g.push(format!("net {} backward {} {}", net.token(), qt(&x), qt(&t)), Tol::Tight, &format!("saturated/{}/{}", act, z), true);
+        }
+    }
+    // a training run that stops early must leave the network in inference mode (the gradients asked for afterwards are
+    // derivatives of the objective only without a dropout mask in the forward pass)
+    early_stopped_dropout_learn(g, "after-early-stop");
     // feedback blocks without internal skips
     for loops in 1..=3 {
         for spatial in [false, true] {
